@@ -318,12 +318,81 @@ def case_judges(exe):
     expect("E3 one character of the ExecStart line changed -> C17 clause", srun(s1, "char"), ["C17-pattern-changed", "C17-line-invalid", "C17-argument-count"])
 
 
+def supervisor(exe):
+    """the supervisor runs: a trace recorded from the real do_remapping_loop_auto_all_devices, one recorded call dropped / changed"""
+    import subprocess
+    ok, why = e3.namespaces_available()
+    if not ok:
+        log("SKIP supervisor controls: no mount namespace (%s)" % why)
+        return
+    wd = workdir("selftest-sv")
+    L = lambda a, d="", x="": {"a": a, "d": d, "x": x}
+    sched = [[L("appear", "k0", "bad"), L("appear", "k1", "ok")], [L("fixperm", "k0")], [L("end", "k1", "err"), L("touch")], [L("vanish", "k0"), L("end", "k0", "ok"), L("appear", "k0", "ok")]]
+    p, tp = e3.sv_record(exe, os.path.join(wd, "ns"), [{"id": "sv", "sched": sched}])
+    p.communicate(timeout=120)
+    base = read_ndjson(tp)
+    with open(os.path.join(wd, "SVT.tla"), "w") as f:
+        f.write("---- MODULE SVT ----\nEXTENDS SupervisorTrace\n====\n")
+    with open(os.path.join(wd, "SVT.cfg"), "w") as f:
+        f.write("SPECIFICATION Spec\nPOSTCONDITION Accepted\nCHECK_DEADLOCK FALSE\n")
+
+    def run(mutate, label):
+        rows = copy.deepcopy(base)
+        if mutate:
+            rows = mutate(rows) or rows
+        q = os.path.join(wd, "t_%s.ndjson" % label)
+        write_ndjson(q, rows)
+        r = TlcRun(wd, "SVT.tla", "SVT.cfg", env={"TRACE": q}, name="svt_" + label, deque=True).run()
+        if r.other_error():
+            return {"TOOL-ERROR: " + r.other_error()[:200]}
+        out = set()
+        for l in r.printed("SV-BAD"):
+            out |= set(parse_tla_value(l)[2])
+        acc = parse_tla_value(r.printed("SV-ACCEPTED")[0])
+        if acc[1] != acc[2]:
+            out.add("NOT-CONSUMED")
+        return out
+    expect("SUP the real supervisor's trace as recorded: accepted by SupervisorTrace", run(None, "clean"), [])
+
+    def idx(rows, pred, nth=0):
+        return [i for i, r in enumerate(rows) if pred(r)][nth]
+
+    def v1(rows):   # the open of k1 in the first round disappears (what a supervisor that stops the round at the failing k0 would log)
+        i = idx(rows, lambda r: r.get("c") == "kopen" and r.get("d") == "k1")
+        j = idx(rows, lambda r: r.get("c") == "wait", 1)
+        del rows[i:j]
+    expect("SUP the open of the second keyboard removed -> C16 on this path", run(v1, "noopen"), ["C16-auto-listed-keyboard-not-opened"])
+
+    def v2(rows):   # the excluded keyboard's node is opened
+        i = idx(rows, lambda r: r.get("c") == "kopen")
+        rows.insert(i, {"c": "kopen", "d": "/dev/input/event2", "res": "foreign", "flags": 2048, "bysup": True})
+    expect("SUP an open of the excluded keyboard inserted -> C16 on this path", run(v2, "excluded"), ["C16-auto-device-outside-the-selectable-keyboards-opened"])
+
+    def v3(rows):   # a device that still has its worker is opened again
+        i = idx(rows, lambda r: r.get("c") == "created" and r.get("d") == "k1")
+        j = idx(rows, lambda r: r.get("c") == "wait", 2)
+        rows.insert(j, {"c": "kopen", "d": "k1", "res": "ok", "flags": 2048, "bysup": True})
+    expect("SUP a second open of a device that has a worker -> supervisor clause", run(v3, "second"), ["SV-second-worker-for-a-device-path"])
+
+    def v4(rows):   # the run ends after the worker's error
+        i = idx(rows, lambda r: r.get("c") == "wend" and r.get("res") == "err")
+        del rows[i + 1:-1]
+        rows[-1]["left"] = 1
+    expect("SUP the supervisor returns after a worker's error -> supervisor clause", run(v4, "stops"), ["SV-supervisor-returned-before-the-device-list-failed"])
+
+    def v5(rows):   # the recorder's own answer is changed: a grab succeeds although the dead worker's descriptor holds it
+        i = idx(rows, lambda r: r.get("c") == "grab" and r.get("res") == "ebusy")
+        rows[i]["res"] = "ok"
+    expect("SUP a grab answer that contradicts the replayed environment -> ENV clause", run(v5, "grab"), ["ENV-grab-answer"])
+
+
 def main():
     exe = build_harness()
     mapper_table(exe)
     loop_traces(exe)
     sys_level(exe)
     case_judges(exe)
+    supervisor(exe)
     bad = [o for o in OUT if not o[1]]
     log("selftest: %d controls, %d failed" % (len(OUT), len(bad)))
     return 1 if bad else 0
